@@ -67,7 +67,9 @@ class C05Bounded(Bounded):
         for esc, wm, ws, add, flt in itertools.product(["\\"], ["*", "%", ".*"], ["?", "_"], ["", "\\", "\"\\", "\""], ["", "a"]):
             configs.append({"escape_char": esc, "wildcard_multi": wm, "wildcard_single": ws, "add_escaped": add, "filter_chars": flt})
         strings = ["".join(t) for n in range(n_max + 1) for t in itertools.product(alpha, repeat=n)]
-        subjects = ["".join(t) for n in range(4) for t in itertools.product("a*.\\", repeat=n)]
+        # (values with regular-expression metacharacters as literal text: dotted addresses, brackets, plus, a question mark that is escaped)
+        strings += [".", "a.", ".*", "1.*", "a.a", "+", "a+", "(a", "[a", "a$", "^a", "a|a", "\\?", "a\\?", "{a}"]
+        subjects = ["".join(t) for n in range(4) for t in itertools.product("a*.\\", repeat=n)] + ["1a", "10", "1.", "1.a", "aa", "aaa", "+", "a+", "(a", "[a", "a$", "^a", "a|a", "a", "?", "a?", "{a}", "a}"]
         for s in strings:
             x = SigmaString(s)
             atoms = M.atoms_native(x.s)
